@@ -50,6 +50,24 @@ adv == AdvanceImpl(start, n, len)
 
 Inside == walk \in 0..(len - 1) /\ adv \in 0..(len - 1)
 StepLaw == walk = (IF n >= 0 THEN start + j ELSE start - j) % len
+(* extension: the random-access operations that fcppt::iterator::base derives from advance /
+   distance_to (base_decl.hpp: "advance: Moves the iterator forwards/backwards", "distance_to:
+   The value to advance *this with in order to be equal to the argument"), with
+   cyclic_iterator::distance_to = std::distance(it_, other.it_):
+     (a + n) - n = a,   a + (b - a) = b,   a[n] = *(a + n)  (same position),
+     a < b  <=>  (b - a) > 0,  and exactly one of a < b, a == b, a > b *)
+DistImpl(i, j2) == j2 - i
+RALaw ==
+  \A j2 \in 0..(len - 1) :
+    LET i == start IN
+    /\ AdvanceImpl(AdvanceImpl(i, n, len), -n, len) = i
+    /\ AdvanceImpl(i, DistImpl(i, j2), len) = j2
+    /\ (DistImpl(i, j2) > 0) = (i < j2)
+    /\ Cardinality({x \in {"lt", "eq", "gt"} :
+          \/ x = "lt" /\ DistImpl(i, j2) > 0
+          \/ x = "eq" /\ i = j2
+          \/ x = "gt" /\ DistImpl(j2, i) > 0}) = 1
+
 AdvanceLaw ==
   /\ adv = CycAdvance(start, n, len)
   /\ (j = Abs(n)) => walk = adv
